@@ -1305,7 +1305,7 @@ func (c *Ctx) runHandlewalk(r *Report, cfg handlewalkConfig) map[*types.Func]str
 		switch {
 		case isRemapper && cfg.Remappers:
 			role = "remapper"
-		case !isRemapper && cfg.Walkers && (cfg.Confirmed[v.id()] || (len(carrying) >= minCarrying && full*4 >= len(carrying)*3)):
+		case !isRemapper && cfg.Walkers && (cfg.Confirmed[v.id()] || (len(carrying) >= minCarrying && (full*4 >= len(carrying)*3 || (touched*10 >= len(carrying)*9 && full*2 >= len(carrying))))):
 			role = "walker"
 		}
 		if role == "" {
